@@ -337,9 +337,9 @@ func (f *Frame) intBinop(in ssa.Instruction, op token.Token, x, y Val, xin, yin 
 
 func (f *Frame) shift(in ssa.Instruction, op token.Token, x, y Val, yin ssa.Value, bits int, signed bool, rt types.Type) Val {
 	g := f.g
-	ybits, ysigned, _ := intInfo(y.GT)
-	if y.GT == nil {
-		ybits, ysigned = 64, true
+	ybits, ysigned := 64, true
+	if y.GT != nil {
+		ybits, ysigned, _ = intInfo(y.GT)
 	}
 	if g.BV {
 		cnt := y.S
